@@ -264,8 +264,101 @@ def handleR (kind : String) (ty : FieldTy) (cfgV : Val) (evs : List (Bytes × Ex
     | _, _ => "bad-line"
   | _ => "bad-line"
 
+/-! ### histories with Set between two populations (HS)
+
+    HS <mode> <cfg> <ops> <eager> <late>
+      mode   s | z<n>   the start populates the eager holder under the document; the paths of `ops` are set in order;
+                        then the late holder — fresh properties — is populated under the configuration as it is then
+                        (`Ioc.Value.populateLater`)
+             w          the start populates the eager holder, then the late holder, whose creation fails afterwards; the
+                        paths are set; the late holder is created again (`Ioc.Value.createTwice`)
+      ops    o(hexpath=val,…)
+      eager, late   h(value|prop|prefix:<ty>:<hextag>,…)
+      → `<start> <eager field>… <second> <late field>…`
+    The configuration is the binder model `Ioc.Value.Binder` (what was set, over the document). -/
+
+/-- `o(hexpath=val,…)` -/
+partial def pOps (s : String) : Option (List (Bytes × Val)) :=
+  match s.toList with
+  | 'o' :: '(' :: r =>
+    let rec go (r : List Char) (acc : List (Bytes × Val)) : Option (List (Bytes × Val)) :=
+      match r with
+      | [')'] => some acc.reverse
+      | ',' :: rest => go rest acc
+      | _ =>
+        let (h, rest) := spanCh isHexCh r
+        match hexTok h, rest with
+        | some k, '=' :: rest2 =>
+          match pVal rest2 with
+          | some (v, rest3) => go rest3 ((k, v) :: acc)
+          | none => none
+        | _, _ => none
+    go r []
+  | _ => none
+
+/-- `h(name:ty:hextag,…)` -/
+partial def pHolder (s : String) : Option (List (String × FieldTy × Bytes)) :=
+  match s.toList with
+  | 'h' :: '(' :: r =>
+    let rec go (r : List Char) (acc : List (String × FieldTy × Bytes)) : Option (List (String × FieldTy × Bytes)) :=
+      match r with
+      | [')'] => some acc.reverse
+      | ',' :: rest => go rest acc
+      | _ =>
+        let (n, rest) := spanCh Char.isAlpha r
+        match rest with
+        | ':' :: rest2 =>
+          match pTy rest2 with
+          | some (t, ':' :: rest3) =>
+            let (h, rest4) := spanCh isHexCh rest3
+            match hexTok h with
+            | some tag => go rest4 ((String.ofList n, t, tag) :: acc)
+            | none => none
+          | _ => none
+        | _ => none
+    go r []
+  | _ => none
+
+/-- the scanned properties of a holder; `none` = a tag the grammar panics on -/
+def holderProps (fs : List (String × FieldTy × Bytes)) : Option (List HProp) :=
+  fs.mapM fun f =>
+    if f.1 = "prefix" then freshProp false f.2.2 f.2.1
+    else if f.1 = "prop" then (Tag.propShorthand? f.2.2).bind fun t => freshProp true t f.2.1
+    else freshProp true f.2.2 f.2.1
+
+def fieldsOf (ps : List HProp) : String := joinWith " " (ps.map fun p => render (p.st.bound.getD (zero p.ty)))
+
+def handleHS (mode cfgS opsS eagerS lateS : String) : String :=
+  match pVal cfgS.toList, pOps opsS, pHolder eagerS, pHolder lateS with
+  | some (.map cfgM, []), some ops, some ef, some lf =>
+    if !(mode = "s" || mode = "w" || mode.startsWith "z") then "bad-line" else
+    match holderProps ef, holderProps lf with
+    | some es, some ls =>
+      let b0 : Binder := ⟨[], cfgM⟩
+      let ev := mkEval []
+      let vd := mkValidate [] true
+      let r1 := populateAll goJson ev vd b0.get stageOrder es
+      match r1.2 with
+      | some e => showErr (some e)
+      | none =>
+        if mode = "w" then
+          let r := createTwice goJson ev vd b0.get (b0.setAll ops).get true ls
+          "err " ++ fieldsOf r1.1 ++ " " ++
+            (match r.second with
+              | some e => showErr (some e)
+              | none => "ok " ++ fieldsOf r.props)
+        else
+          let r2 := populateLater goJson ev vd b0 ops ls
+          "ok " ++ fieldsOf r1.1 ++ " " ++
+            (match r2.2 with
+              | some e => showErr (some e)
+              | none => "ok " ++ fieldsOf r2.1)
+    | _, _ => "panic"
+  | _, _, _, _ => "bad-line"
+
 def handle (line : String) : String :=
   match line.splitOn " " with
+  | ["HS", mode, cfgS, opsS, eagerS, lateS] => handleHS mode cfgS opsS eagerS lateS
   | kind :: tyS :: cfgS :: evS :: vdS :: tags =>
     if kind = "R3" || kind = "RE" || kind = "RQ" then
       match pTy tyS.toList, pVal cfgS.toList, pEvals evS, pVerdicts vdS with
